@@ -521,7 +521,46 @@ Proof.
   unfold loaded, vec_of_flat, active. rewrite Hp. reflexivity.
 Qed.
 
-(* ---------- refutations for the code as it is ---------- *)
+
+Lemma read_scalar_znx_fixed_roundtrip (dbg partial : bool) (r x : scalar_znx) (tl : bytes) :
+  wf_flat (flat_of_scalar x) -> scalar_payload x <= blen (sdata r) ->
+  read_scalar_znx_fixed dbg partial r (write_scalar_znx x ++ tl) =
+    (Ok, {| sn := sn x; scols := scols x;
+            sdata := firstn (Z.to_nat (scalar_payload x)) (sdata x) ++ skipn (Z.to_nat (scalar_payload x)) (sdata r) |}, tl).
+Proof.
+  intros Hwf Hcap. pose proof (scalar_payload_eq x Hwf) as Hp.
+  unfold read_scalar_znx_fixed, lift_read, write_scalar_znx.
+  rewrite read_flat_fixed_roundtrip; [|exact Hwf|reflexivity|rewrite Hp; exact Hcap|discriminate].
+  unfold loaded, scalar_of_flat, active. rewrite Hp. reflexivity.
+Qed.
+
+Lemma read_mat_znx_fixed_roundtrip (dbg partial : bool) (r x : mat_znx) (tl : bytes) :
+  wf_flat (flat_of_mat x) -> mat_payload x <= blen (mdata r) ->
+  read_mat_znx_fixed dbg partial r (write_mat_znx x ++ tl) =
+    (Ok, {| mn := mn x; msize := msize x; mrows := mrows x; mcols_in := mcols_in x; mcols_out := mcols_out x;
+            mdata := firstn (Z.to_nat (mat_payload x)) (mdata x) ++ skipn (Z.to_nat (mat_payload x)) (mdata r) |}, tl).
+Proof.
+  intros Hwf Hcap. pose proof (mat_payload_eq x Hwf) as Hp.
+  unfold read_mat_znx_fixed, lift_read, write_mat_znx.
+  rewrite read_flat_fixed_roundtrip; [|exact Hwf|reflexivity|rewrite Hp; exact Hcap|discriminate].
+  unfold loaded, mat_of_flat, active. rewrite Hp. reflexivity.
+Qed.
+
+Lemma read_flat_fixed_never_panics (dbg partial : bool) (r : flat) (s : bytes) :
+  is_panic (fst (fst (read_flat_fixed dbg partial r s))) = false.
+Proof. destruct (read_flat_fixed_total dbg partial r s) as [-> | ->]; reflexivity. Qed.
+
+Lemma read_flat_fixed_length (dbg partial : bool) (r : flat) (s : bytes) :
+  length (fd (snd (fst (read_flat_fixed dbg partial r s)))) = length (fd r) /\
+  fk (snd (fst (read_flat_fixed dbg partial r s))) = fk r.
+Proof.
+  destruct (read_flat_fixed dbg partial r s) as [[o r'] t] eqn:E. cbn [fst snd].
+  apply read_flat_fixed_cases in E.
+  destruct E as [(_ & Hk & _ & Hl)|(h & s1 & len & s2 & a & _ & _ & E2 & _ & _ & Hle & _ & _ & Hla & ->)]; auto.
+  cbn [fd fk]. split; [|reflexivity]. rewrite app_length, skipn_length. apply rd_u64 in E2. unfold u64, blen in *. lia.
+Qed.
+
+(* ---------- refutations for the code as it was before /repo 206cd69 (current_flat) ---------- *)
 Definition w_recv : flat := {| fk := KVec; fh := [1; 1; 1; 1]; fd := repeat 0 64%nat |}.
 (* n = 2^61, cols = size = max_size = 1, len = 0:  2^61 * 1 * 1 * 8 = 2^64 *)
 Definition w_overflow : bytes := le_bytes 8 (2 ^ 61) ++ le_bytes 8 1 ++ le_bytes 8 1 ++ le_bytes 8 1 ++ le_bytes 8 0.
